@@ -104,19 +104,21 @@ TimedUpd(kind, a, b, st, sample0, Dev) ==
 
 ---------------------------------------------------------------------------
 \* What the operator must compute: the dense-time semantics of Dense!SigC on the whole signal.  sig is a sample
-\* list that starts at time 0; cells are extended by b beyond its end (Dense!Settle).
+\* list; cells start at its first time-stamp and are extended by b beyond its end (Dense!Settle).
 RefCells(kind, a, b, sig) ==
-  LET d1 == LastT(sig) + b
-      n == d1 + 1
-      C == CellsOf([x |-> sig], {"x"}, 0, d1) IN
+  LET d0 == FirstT(sig)
+      d1 == LastT(sig) + b
+      n == d1 - d0 + 1
+      C == CellsOf([x |-> sig], {"x"}, d0, d1) IN
   SigC([op |-> kind, l |-> [op |-> "var", v |-> "x"], a |-> a, b |-> b], C, n, 1, [sem |-> "standard", io |-> [x |-> "output"]])
 
 \* emitted (concatenation of the returned batches) read as a step function agrees with the semantics wherever it is defined
 AgreesWith(emitted, kind, a, b, sig) ==
   emitted = <<>> \/
   LET R == RefCells(kind, a, b, sig)
-      n == Len(R) IN
-  \A t \in FirstT(emitted)..LastT(emitted) : StepAt(emitted, t) = R[Clip(t + 1, n)]
+      n == Len(R)
+      d0 == FirstT(sig) IN
+  \A t \in FirstT(emitted)..LastT(emitted) : StepAt(emitted, t) = R[Clip(t - d0 + 1, n)]
 
 StrictlyIncreasing(sl) == \A i \in 1..(Len(sl) - 1) : sl[i][1] < sl[i + 1][1]
 ---------------------------------------------------------------------------
